@@ -1,0 +1,295 @@
+//! Verification hooks. Compiled only with the cargo feature `verif-hooks`
+//! (off by default). Nothing in here is part of the public API of the crate;
+//! it exposes crate-private building blocks to an external monitoring harness
+//! and lets that harness observe and steer the signer:
+//!
+//!  - a thread-local override of the random generator used by `sign`;
+//!  - a thread-local event log (branches of the signing loops, integer
+//!    sampler calls, inputs of the Babai reduction during key generation);
+//!  - a failpoint that makes signature compression "fail" a number of times;
+//!  - thin wrappers around crate-private functions.
+//!
+//! All state is thread-local, so the monitor state of one thread cannot race
+//! with another thread and is updated in program order with what it shadows.
+
+use std::cell::{Cell, RefCell};
+
+use num_complex::Complex64;
+use rand::RngCore;
+
+use crate::falcon_field::Felt;
+use crate::fast_fft::FastFft;
+use crate::inverse::Inverse;
+use crate::polynomial::Polynomial;
+
+#[derive(Debug, Clone, PartialEq)]
+pub enum Event {
+    SignStart,
+    /// The candidate (s1,s2) exceeded the norm bound (floating point squared norm).
+    NormReject(f64),
+    /// Compression of s2 failed (also when forced by the failpoint).
+    CompressFail,
+    SignDone,
+    /// One call of the integer sampler made by ffsampling.
+    SamplerCall {
+        mu: f64,
+        sigma: f64,
+        sigmin: f64,
+        z: i16,
+    },
+    /// Inputs of `babai_reduce_i32` at the top level of key generation.
+    BabaiInput {
+        f: Vec<i32>,
+        g: Vec<i32>,
+        capital_f: Vec<i32>,
+        capital_g: Vec<i32>,
+    },
+}
+
+thread_local! {
+    static OVERRIDE: RefCell<Option<Box<dyn RngCore>>> = RefCell::new(None);
+    static EVENTS: RefCell<Vec<Event>> = RefCell::new(Vec::new());
+    static LOG_SIGN: Cell<bool> = Cell::new(false);
+    static LOG_SAMPLER: Cell<bool> = Cell::new(false);
+    static LOG_BABAI: Cell<bool> = Cell::new(false);
+    static FP_COMPRESS: Cell<u32> = Cell::new(0);
+}
+
+/// Install (or remove) the generator that `sign` draws from in this thread.
+/// Returns the previously installed one.
+pub fn set_sign_rng(r: Option<Box<dyn RngCore>>) -> Option<Box<dyn RngCore>> {
+    OVERRIDE.with(|o| std::mem::replace(&mut *o.borrow_mut(), r))
+}
+
+/// Choose which event classes are recorded in this thread.
+pub fn set_logging(sign: bool, sampler: bool, babai: bool) {
+    LOG_SIGN.with(|c| c.set(sign));
+    LOG_SAMPLER.with(|c| c.set(sampler));
+    LOG_BABAI.with(|c| c.set(babai));
+}
+
+/// Make the next `k` compressions inside `sign` (this thread) report failure.
+pub fn set_compress_failures(k: u32) {
+    FP_COMPRESS.with(|c| c.set(k));
+}
+
+pub fn take_events() -> Vec<Event> {
+    EVENTS.with(|v| std::mem::take(&mut *v.borrow_mut()))
+}
+
+pub(crate) fn emit_sign(e: Event) {
+    if LOG_SIGN.with(|c| c.get()) {
+        EVENTS.with(|v| v.borrow_mut().push(e));
+    }
+}
+
+pub(crate) fn emit_sampler(mu: f64, sigma: f64, sigmin: f64, z: i16) {
+    if LOG_SAMPLER.with(|c| c.get()) {
+        EVENTS.with(|v| {
+            v.borrow_mut().push(Event::SamplerCall {
+                mu,
+                sigma,
+                sigmin,
+                z,
+            })
+        });
+    }
+}
+
+pub(crate) fn emit_babai(
+    f: &Polynomial<i32>,
+    g: &Polynomial<i32>,
+    capital_f: &Polynomial<i32>,
+    capital_g: &Polynomial<i32>,
+) {
+    if LOG_BABAI.with(|c| c.get()) {
+        EVENTS.with(|v| {
+            v.borrow_mut().push(Event::BabaiInput {
+                f: f.coefficients.clone(),
+                g: g.coefficients.clone(),
+                capital_f: capital_f.coefficients.clone(),
+                capital_g: capital_g.coefficients.clone(),
+            })
+        });
+    }
+}
+
+pub(crate) fn fp_compress(maybe_s: Option<Vec<u8>>) -> Option<Vec<u8>> {
+    let remaining = FP_COMPRESS.with(|c| c.get());
+    if remaining > 0 {
+        FP_COMPRESS.with(|c| c.set(remaining - 1));
+        None
+    } else {
+        maybe_s
+    }
+}
+
+/// Shadow of the generator in `sign`: forwards to the thread-local override
+/// when one is installed and to the wrapped generator otherwise.
+pub struct SignRng<R: RngCore> {
+    inner: R,
+}
+
+impl<R: RngCore> SignRng<R> {
+    pub fn new(inner: R) -> Self {
+        Self { inner }
+    }
+}
+
+impl<R: RngCore> RngCore for SignRng<R> {
+    fn next_u32(&mut self) -> u32 {
+        OVERRIDE.with(|o| match o.borrow_mut().as_mut() {
+            Some(r) => r.next_u32(),
+            None => self.inner.next_u32(),
+        })
+    }
+    fn next_u64(&mut self) -> u64 {
+        OVERRIDE.with(|o| match o.borrow_mut().as_mut() {
+            Some(r) => r.next_u64(),
+            None => self.inner.next_u64(),
+        })
+    }
+    fn fill_bytes(&mut self, d: &mut [u8]) {
+        OVERRIDE.with(|o| match o.borrow_mut().as_mut() {
+            Some(r) => r.fill_bytes(d),
+            None => self.inner.fill_bytes(d),
+        })
+    }
+    fn try_fill_bytes(&mut self, d: &mut [u8]) -> Result<(), rand::Error> {
+        self.fill_bytes(d);
+        Ok(())
+    }
+}
+
+// ---------------------------------------------------------------------------
+// wrappers around crate-private functions
+
+pub fn compress(v: &[i16], byte_length: usize) -> Option<Vec<u8>> {
+    crate::encoding::compress(v, byte_length)
+}
+
+pub fn decompress(x: &[u8], n: usize) -> Option<Vec<i16>> {
+    crate::encoding::decompress(x, n)
+}
+
+pub fn hash_to_point(string: &[u8], n: usize) -> Vec<i16> {
+    crate::polynomial::hash_to_point(string, n)
+        .coefficients
+        .iter()
+        .map(|c| c.value())
+        .collect()
+}
+
+pub use crate::samplerz::verif as sampler;
+
+// Z_q element operations on plain integers. Operands are turned into field
+// elements with `Felt::new`; results are reported with `Felt::value`.
+
+#[inline]
+pub fn felt_new(v: i16) -> i16 {
+    Felt::new(v).value()
+}
+#[inline]
+pub fn felt_balanced(v: i16) -> i16 {
+    Felt::new(v).balanced_value()
+}
+#[inline]
+pub fn felt_add(a: i16, b: i16) -> i16 {
+    (Felt::new(a) + Felt::new(b)).value()
+}
+#[inline]
+pub fn felt_sub(a: i16, b: i16) -> i16 {
+    (Felt::new(a) - Felt::new(b)).value()
+}
+#[inline]
+pub fn felt_mul(a: i16, b: i16) -> i16 {
+    (Felt::new(a) * Felt::new(b)).value()
+}
+#[inline]
+pub fn felt_multiply(a: i16, b: i16) -> i16 {
+    Felt::new(a).multiply(Felt::new(b)).value()
+}
+#[inline]
+pub fn felt_neg(a: i16) -> i16 {
+    (-Felt::new(a)).value()
+}
+#[inline]
+pub fn felt_inv(a: i16) -> i16 {
+    Felt::new(a).inverse_or_zero().value()
+}
+pub fn felt_div(a: i16, b: i16) -> i16 {
+    (Felt::new(a) / Felt::new(b)).value()
+}
+pub fn felt_batch_inv(v: &[i16]) -> Vec<i16> {
+    let felts: Vec<Felt> = v.iter().map(|&a| Felt::new(a)).collect();
+    Felt::batch_inverse_or_zero(&felts)
+        .iter()
+        .map(|f| f.value())
+        .collect()
+}
+
+fn to_felts(v: &[i16]) -> Polynomial<Felt> {
+    Polynomial::new(v.iter().map(|&a| Felt::new(a)).collect())
+}
+fn from_felts(p: &Polynomial<Felt>) -> Vec<i16> {
+    p.coefficients.iter().map(|f| f.value()).collect()
+}
+
+/// Forward number-theoretic transform of a polynomial modulo q.
+pub fn ntt(v: &[i16]) -> Vec<i16> {
+    from_felts(&to_felts(v).fft())
+}
+/// Inverse number-theoretic transform.
+pub fn intt(v: &[i16]) -> Vec<i16> {
+    from_felts(&to_felts(v).ifft())
+}
+/// Product in Z_q[X]/(X^n+1) the way `verify` computes it.
+pub fn ntt_mul(a: &[i16], b: &[i16]) -> Vec<i16> {
+    from_felts(&to_felts(a).fft().hadamard_mul(&to_felts(b).fft()).ifft())
+}
+/// Quotient in Z_q[X]/(X^n+1) the way the public key is computed.
+pub fn ntt_div(a: &[i16], b: &[i16]) -> Vec<i16> {
+    from_felts(&to_felts(a).fft().hadamard_div(&to_felts(b).fft()).ifft())
+}
+pub fn ntt_split(v: &[i16]) -> (Vec<i16>, Vec<i16>) {
+    let (a, b) = to_felts(v).split_fft();
+    (from_felts(&a), from_felts(&b))
+}
+pub fn ntt_merge(a: &[i16], b: &[i16]) -> Vec<i16> {
+    from_felts(&Polynomial::<Felt>::merge_fft(&to_felts(a), &to_felts(b)))
+}
+
+/// (forward table, inverse table, [n^-1 for n = 1, 2, 4, ..., 1024])
+pub fn felt_tables() -> (Vec<i16>, Vec<i16>, Vec<i16>) {
+    crate::fast_fft::verif::felt_tables()
+}
+
+fn to_cplx(v: &[(f64, f64)]) -> Polynomial<Complex64> {
+    Polynomial::new(v.iter().map(|&(re, im)| Complex64::new(re, im)).collect())
+}
+fn from_cplx(p: &Polynomial<Complex64>) -> Vec<(f64, f64)> {
+    p.coefficients.iter().map(|c| (c.re, c.im)).collect()
+}
+
+pub fn cfft(v: &[(f64, f64)]) -> Vec<(f64, f64)> {
+    from_cplx(&to_cplx(v).fft())
+}
+pub fn cifft(v: &[(f64, f64)]) -> Vec<(f64, f64)> {
+    from_cplx(&to_cplx(v).ifft())
+}
+pub fn cmul(a: &[(f64, f64)], b: &[(f64, f64)]) -> Vec<(f64, f64)> {
+    from_cplx(&to_cplx(a).hadamard_mul(&to_cplx(b)))
+}
+pub fn csplit(v: &[(f64, f64)]) -> (Vec<(f64, f64)>, Vec<(f64, f64)>) {
+    let (a, b) = to_cplx(v).split_fft();
+    (from_cplx(&a), from_cplx(&b))
+}
+pub fn cmerge(a: &[(f64, f64)], b: &[(f64, f64)]) -> Vec<(f64, f64)> {
+    from_cplx(&Polynomial::<Complex64>::merge_fft(
+        &to_cplx(a),
+        &to_cplx(b),
+    ))
+}
+pub fn complex_table() -> Vec<(f64, f64)> {
+    crate::fast_fft::verif::complex_table()
+}
